@@ -95,6 +95,12 @@ func TestVerifGlob(t *testing.T) {
 		try([]string{p}, append([]string{"[", "]", "a[b]", "[]", "x\\y", "x\\\\y", "\\", "\\\\", "a\\", "*a", "?", "a"}, paths[:40]...))
 		try([]string{p, "a"}, []string{"[", "]", "a[b]", "[]", "x\\y", "\\", "a\\", "*a", "?", "a", "aa"})
 	}
+	// no pattern at all matches nothing; a line break is a character like any other
+	try([]string{}, []string{"", "a", "/", "a/b"})
+	for _, p := range []string{"?", "a?b", "**", "a**b", "*", "a*b", "?*", "a?"} {
+		try([]string{p}, []string{"\n", "a\nb", "a\n", "\nb", "a\n/b", "a/\nb", "ab", "a"})
+		try([]string{"x", p}, []string{"\n", "a\nb", "x"})
+	}
 	shortPaths := strs(salpha, min(slen, 3))[1:]
 	p2 := strs(palpha, plen2)[1:]
 	for _, a := range p2 {
